@@ -45,9 +45,9 @@ func rootName(fn *ssa.Function) string {
 		fn = fn.Parent()
 	}
 	if recv := fn.Signature.Recv(); recv != nil {
-		return core.TypeName(recv.Type()) + "." + fn.Name()
+		return core.TypeName(recv.Type()) + "." + core.N(fn)
 	}
-	return fn.Name()
+	return core.N(fn)
 }
 
 func c17Isolate(c *core.Ctx, r *core.Reporter) {
@@ -71,7 +71,7 @@ func c17Isolate(c *core.Ctx, r *core.Reporter) {
 			}
 			key := rootName(fn) + "/" + what
 			if fn.Parent() == nil {
-				r.Bad(key, ci.Pos(), "hook %s is called directly in %s, not inside a recovering function literal: a panic in the hook takes down the request", what, fn.Name())
+				r.Bad(key, ci.Pos(), "hook %s is called directly in %s, not inside a recovering function literal: a panic in the hook takes down the request", what, core.N(fn))
 				continue
 			}
 			// fn's entry block must defer a recovering handler before the hook call
@@ -301,7 +301,7 @@ func c17Finish(c *core.Ctx, r *core.Reporter) {
 				base := rootName(fn) + "/" + strings.TrimPrefix(sname, "handleExtensions")
 				uses := handlerUses(fn, start)
 				if len(uses) == 0 {
-					r.Bad(base+"/finish", start.Pos(), "the finish handler returned by %s is never invoked in %s", sname, fn.Name())
+					r.Bad(base+"/finish", start.Pos(), "the finish handler returned by %s is never invoked in %s", sname, core.N(fn))
 					continue
 				}
 				// exits reachable from the start without passing an invocation / defer registration
@@ -335,11 +335,11 @@ func c17Finish(c *core.Ctx, r *core.Reporter) {
 				}
 				sort.Slice(exits, func(i, j int) bool { return exits[i].Pos() < exits[j].Pos() })
 				if len(exits) == 0 {
-					r.OK(base+"/all-exits", start.Pos(), "every exit of %s reachable from the start passes an invocation (or deferred invocation) of the finish handler", fn.Name())
+					r.OK(base+"/all-exits", start.Pos(), "every exit of %s reachable from the start passes an invocation (or deferred invocation) of the finish handler", core.N(fn))
 				}
 				for i, e := range exits {
 					r.Bad(fmt.Sprintf("%s/unfinished-exit#%d", base, i+1), e.Pos(),
-						"%s can leave through this exit after %s started the phase without invoking the returned finish handler: extensions whose start succeeded never see the phase finished", fn.Name(), sname)
+						"%s can leave through this exit after %s started the phase without invoking the returned finish handler: extensions whose start succeeded never see the phase finished", core.N(fn), sname)
 				}
 				// user callback between start and a non-deferred invocation
 				for _, u := range uses {
@@ -547,7 +547,7 @@ func init() {
 func c17Recovered(c *core.Ctx, r *core.Reporter) {
 	per := map[string]int{}
 	for _, top := range c.LibFuncs() {
-		if top.Parent() != nil || !(strings.HasPrefix(top.Name(), "handleExtensions") || top.Name() == "addExtensionResults") {
+		if top.Parent() != nil || !(strings.HasPrefix(core.N(top), "handleExtensions") || core.N(top) == "addExtensionResults") {
 			continue
 		}
 		for _, fn := range core.WithAnon(top) {
@@ -556,13 +556,13 @@ func c17Recovered(c *core.Ctx, r *core.Reporter) {
 				if !ok {
 					return
 				}
-				if b, ok := call.Call.Value.(*ssa.Builtin); !ok || b.Name() != "recover" {
+				if b, ok := call.Call.Value.(*ssa.Builtin); !ok || core.N(b) != "recover" {
 					return
 				}
-				per[top.Name()]++
-				key := fmt.Sprintf("%s/recover#%d", top.Name(), per[top.Name()])
+				per[core.N(top)]++
+				key := fmt.Sprintf("%s/recover#%d", core.N(top), per[core.N(top)])
 				if site, via := invokedOn(c, call, map[ssa.Value]bool{}, 0); site != nil {
-					r.Bad(key, site.Pos(), "the value recovered from a panicking hook in %s becomes the receiver of a method call (%s): that is the hook's own code running outside any recover — a panic value whose method panics (a typed-nil error, a wrapper around a nil error) escapes Do and the other extensions' finish functions are never called", top.Name(), via)
+					r.Bad(key, site.Pos(), "the value recovered from a panicking hook in %s becomes the receiver of a method call (%s): that is the hook's own code running outside any recover — a panic value whose method panics (a typed-nil error, a wrapper around a nil error) escapes Do and the other extensions' finish functions are never called", core.N(top), via)
 				} else {
 					r.OK(key, call.Pos(), "the recovered value is only passed to fmt")
 				}
@@ -587,7 +587,7 @@ func invokedOn(c *core.Ctx, v ssa.Value, seen map[ssa.Value]bool, depth int) (ss
 		case ssa.CallInstruction:
 			cc := x.Common()
 			if cc.IsInvoke() && cc.Value == v {
-				return x, "." + cc.Method.Name() + "()"
+				return x, "." + core.N(cc.Method) + "()"
 			}
 			callee := cc.StaticCallee()
 			if callee == nil || !c.IsLib(callee) || callee.Blocks == nil {
@@ -596,7 +596,7 @@ func invokedOn(c *core.Ctx, v ssa.Value, seen map[ssa.Value]bool, depth int) (ss
 			for i, a := range cc.Args {
 				if a == v && i < len(callee.Params) {
 					if site, via := invokedOn(c, callee.Params[i], seen, depth+1); site != nil {
-						return site, via + " in " + callee.Name()
+						return site, via + " in " + core.N(callee)
 					}
 				}
 			}
